@@ -485,3 +485,24 @@ def replay_expanded_constraints(kind):
                 return dict(ok=True, function=fn.__qualname__, constraints=cs, expected=want, observed=got)
         return dict(ok=False, function=fn.__qualname__, tried=tried)
     return run
+
+
+def replay_solver_init(o, model):
+    """native replay for SolverWrapper.__init__: real wrappers are created with the default and with two explicit tolerances and the option values HiGHS
+    actually holds are read back (getOptionValue): both MIP gaps must be at most the wrapper's tolerance."""
+    import flowpaths.utils.solverwrapper as sw
+    tried = []
+    for kw in ({}, {"tolerance": 1e-6}, {"tolerance": 1e-9}):
+        w = sw.SolverWrapper(**kw)
+        tol = kw.get("tolerance", sw.SolverWrapper.tolerance)
+        rec = dict(kwargs=kw, tolerance=tol)
+        bad = False
+        for k in ("mip_abs_gap", "mip_rel_gap"):
+            r = w.solver.getOptionValue(k)
+            v = r[1] if isinstance(r, (tuple, list)) else r
+            rec[k] = v
+            bad = bad or not (0 <= float(v) <= float(tol) * (1 + 1e-12))
+        if bad:
+            return dict(ok=True, function="SolverWrapper.__init__", expected="mip_abs_gap and mip_rel_gap <= tolerance", **rec)
+        tried.append(rec)
+    return dict(ok=False, function="SolverWrapper.__init__", tried=tried)
